@@ -309,12 +309,17 @@ def closure_problems(pkg: RefPackage, tolerate_refs: set | None = None, require_
     return out
 
 
-def unresolved_refs(pkg: RefPackage) -> set:
+def unresolved_refs(pkg: RefPackage, include_dangling: bool = False) -> set:
+    """(partname, attr, value) of r:* references that name no relationship of their part (and, with
+    include_dangling, those naming an internal relationship whose target member is absent)."""
     s = set()
     for n in pkg.part_names():
         if not is_xml_type(pkg.content_type(n), n):
             continue
-        ids = {r.rid for r in (pkg.rels_of(n) or [])}
+        rels = pkg.rels_of(n) or []
+        ids = {r.rid for r in rels}
+        if include_dangling:
+            ids -= {r.rid for r in rels if r.mode != "External" and r.target not in pkg.members}
         for attr, val in xml_rid_refs(pkg.members[n]):
             if val and val not in ids:
                 s.add((n, attr, val))
